@@ -528,6 +528,7 @@ class Machine:
         self.choose_filter = {}  # name -> set of allowed values (sharding)
         self.params = {}
         self.params_used = {}
+        self.path_step_limit = 1_500_000
         self.check_log = {}  # label -> dict(evals, passed_concrete, queries)
 
     # -- solver ------------------------------------------------------------
@@ -1013,16 +1014,22 @@ class Machine:
     def operand(self, fr, op):
         k = op[0]
         if k == "copy":
-            v = self.read_loc(self.place_loc(fr, op[1]))
+            pl = op[1]
+            if not pl[1]:
+                v = fr.locals[pl[0]].v
+            else:
+                v = self.read_loc(self.place_loc(fr, pl))
             t = type(v)
+            if t is int or t is bool or t is Ptr:
+                return v
             if t is Agg or t is VecVal or t is StrBuf or t is MapVal or t is Obj:
                 return copy_value(v)
             return v
         if k == "move":
-            place = op[1]
-            loc = self.place_loc(fr, place)
-            v = self.read_loc(loc)
-            return v
+            pl = op[1]
+            if not pl[1]:
+                return fr.locals[pl[0]].v
+            return self.read_loc(self.place_loc(fr, pl))
         if k == "const":
             return self.const_value(op[1], op[2])
         if k == "rtcheck":
@@ -1648,7 +1655,12 @@ class Machine:
         if k == "cast":
             return self.cast(rv[1], self.operand(fr, rv[2]), rv[3], rv[4], rv[5])
         if k == "discr":
-            return self.discr_of(self.read_loc(self.place_loc(fr, rv[1])))
+            v = self.read_loc(self.place_loc(fr, rv[1]))
+            if v is None and not rv[1][1]:
+                t = self.p.types.get(fr.body["locals"][rv[1][0]])
+                if t is not None and t.get("size") == 0:
+                    return 0  # zero-sized enum (single inhabited variant), never written
+            return self.discr_of(v)
         if k == "len":
             loc = self.place_loc(fr, rv[1])
             if loc.special is not None and loc.special[0] == "slice":
@@ -1840,6 +1852,9 @@ class Machine:
             if k == "assign":
                 v = self.rvalue(fr, s[2])
                 place = s[1]
+                if not place[1]:
+                    fr.locals[place[0]].v = v
+                    continue
                 try:
                     loc = self.place_loc(fr, place)
                     self.write_loc(loc, v)
@@ -2004,6 +2019,10 @@ class Machine:
         while True:
             if self.stats.steps > self.step_budget:
                 raise Budget("step budget exhausted")
+            if st.steps > self.path_step_limit:
+                fr = st.frames[-1] if st.frames else None
+                raise PathEnd("hang", "no termination within %d MIR blocks (in %s)" % (
+                    self.path_step_limit, fr.fn["name"][:100] if fr else "?"))
             if self.deadline is not None and (self.stats.steps & 0xFF) == 0 and time.time() > self.deadline:
                 raise Budget("time budget exhausted")
             try:
